@@ -12,6 +12,12 @@ Inductive val : Type :=
 | VLI (l : list Z)
 | VLO (l : list Z).
 
+Definition val_eq_dec (v w : val) : {v = w} + {v <> w}.
+Proof. decide equality; try apply Z.eq_dec; apply (list_eq_dec Z.eq_dec). Defined.
+Definition val_eqb (v w : val) : bool := if val_eq_dec v w then true else false.
+Lemma val_eqb_eq v w : val_eqb v w = true <-> v = w.
+Proof. unfold val_eqb. destruct (val_eq_dec v w); split; congruence. Qed.
+
 (* A world: attribute access and the key that decides Python [==] between objects
    (identity classes: [okey o = o]; value-equal twins share a key). *)
 Record world : Type := { attr : Z -> nat -> val; okey : Z -> Z }.
@@ -29,6 +35,18 @@ Definition py_eq (W : world) (v w : val) : bool :=
   | VO a, VO b => Z.eqb (okey W a) (okey W b)
   | VLI l, VLI m => zsubset l m && zsubset m l
   | VLO l, VLO m => let kl := map (okey W) l in let km := map (okey W) m in zsubset kl km && zsubset km kl
+  | VLI [], VLO [] | VLO [], VLI [] => true
+  | _, _ => false
+  end.
+
+Definition zlist_eqb (l m : list Z) : bool := if list_eq_dec Z.eq_dec l m then true else false.
+(* plain Python [==] (no set conversion), as [x in seen_values] applies it *)
+Definition py_plain_eq (W : world) (v w : val) : bool :=
+  match v, w with
+  | VI a, VI b => Z.eqb a b
+  | VO a, VO b => Z.eqb (okey W a) (okey W b)
+  | VLI l, VLI m => zlist_eqb l m
+  | VLO l, VLO m => zlist_eqb (map (okey W) l) (map (okey W) m)
   | VLI [], VLO [] | VLO [], VLI [] => true
   | _, _ => false
   end.
@@ -63,18 +81,44 @@ Inductive cond : Type :=
 | CAnd (l r : cond)
 | CElseIf (l r : cond)
 | CUnion (l r : cond)
-| CNot (c : cond).
+| CNot (c : cond)
+| CExists (e : opnd) (c : cond)      (* exists(e, c): e is the quantified variable (or an attribute expression, as match_any builds) *)
+| CForAll (y : var) (c : cond).      (* for_all(y, c) *)
 
 Fixpoint opnd_var (e : opnd) : option var :=
   match e with OLit _ => None | OVar x => Some x | OAttr e _ => opnd_var e end.
 Definition opnd_vars (e : opnd) : list var :=
   match opnd_var e with Some x => [x] | None => [] end.
 
+(* every variable mentioned, quantified ones included (what optimize_or looks at) *)
 Fixpoint cond_vars (c : cond) : list var :=
   match c with
   | CCmp _ l r => opnd_vars l ++ opnd_vars r
   | CAnd l r | CElseIf l r | CUnion l r => cond_vars l ++ cond_vars r
   | CNot c => cond_vars c
+  | CExists e c => opnd_vars e ++ cond_vars c
+  | CForAll y c => y :: cond_vars c
+  end.
+
+Definition remove_var (y : var) (l : list var) : list var := filter (fun x => negb (Nat.eqb x y)) l.
+
+(* free variables: a quantifier binds its variable *)
+Fixpoint cond_fv (c : cond) : list var :=
+  match c with
+  | CCmp _ l r => opnd_vars l ++ opnd_vars r
+  | CAnd l r | CElseIf l r | CUnion l r => cond_fv l ++ cond_fv r
+  | CNot c => cond_fv c
+  | CExists (OVar y) c => remove_var y (cond_fv c)
+  | CExists e c => opnd_vars e ++ cond_fv c
+  | CForAll y c => remove_var y (cond_fv c)
+  end.
+
+Fixpoint qfree (c : cond) : bool :=
+  match c with
+  | CCmp _ _ _ => true
+  | CAnd l r | CElseIf l r | CUnion l r => qfree l && qfree r
+  | CNot c => qfree c
+  | CExists _ _ | CForAll _ _ => false
   end.
 
 Definition nmem (x : var) (l : list var) : bool := existsb (Nat.eqb x) l.
@@ -86,11 +130,17 @@ Definition same_vars (l m : list var) : bool := nsubset l m && nsubset m l.
 Definition mk_or (l r : cond) : cond :=
   if same_vars (cond_vars l) (cond_vars r) then CElseIf l r else CUnion l r.
 Definition mk_and (l r : cond) : cond := CAnd l r.
-Definition mk_not (c : cond) : cond := CNot c.
+(* not_(e) = e._invert_(): a quantifier is inverted into its dual over the inverted condition, anything else is wrapped *)
+Fixpoint mk_not (c : cond) : cond :=
+  match c with
+  | CExists (OVar y) c' => CForAll y (mk_not c')
+  | CForAll y c' => CExists (OVar y) (mk_not c')
+  | _ => CNot c
+  end.
 
 (* a query: selected operands and an optional condition; domains are given per variable *)
 Record query : Type := { q_sels : list opnd; q_cond : option cond }.
 Definition domains := var -> list val.
 
 Definition query_vars (q : query) : list var :=
-  flat_map opnd_vars (q_sels q) ++ match q_cond q with Some c => cond_vars c | None => [] end.
+  flat_map opnd_vars (q_sels q) ++ match q_cond q with Some c => cond_fv c | None => [] end.
